@@ -4,8 +4,11 @@ import (
 	"errors"
 	"fmt"
 	"log"
+	"math"
 	"reflect"
 	"sort"
+	"strconv"
+	"strings"
 	"time"
 
 	"github.com/goccy/go-yaml"
@@ -490,7 +493,33 @@ func ExportNodes(nc *nats.Conn, id string) ([]byte, error) {
 
 	ne := SiotExport{Nodes: necNodes}
 
-	return yaml.Marshal(ne)
+	return yaml.MarshalWithOptions(ne, yaml.CustomMarshaler[float64](yamlFloat))
+}
+
+// yamlFloat writes a float so that the YAML reader takes it for a float again.
+// go-yaml formats values like 1000000 as 1e+06 (no decimal point) and then
+// reads that back as a string, so an export holding such a value could not be
+// imported.
+func yamlFloat(v float64) ([]byte, error) {
+	switch {
+	case math.IsInf(v, 1):
+		return []byte(".inf"), nil
+	case math.IsInf(v, -1):
+		return []byte("-.inf"), nil
+	case math.IsNaN(v):
+		return []byte(".nan"), nil
+	}
+
+	s := strconv.FormatFloat(v, 'g', -1, 64)
+	if i := strings.IndexByte(s, 'e'); i >= 0 {
+		if !strings.Contains(s[:i], ".") {
+			s = s[:i] + ".0" + s[i:]
+		}
+	} else if !strings.Contains(s, ".") {
+		s += ".0"
+	}
+
+	return []byte(s), nil
 }
 
 func exportNodesHelper(nc *nats.Conn, node *data.NodeEdgeChildren) error {
